@@ -309,6 +309,47 @@ def classes():
         def __len__(self):
             return len(self.buy_order_book) + len(self.sell_order_book)
 
+    class BatchRecordingLogger(Logger):
+        """a logger that takes the records from the batches handed to process() (the documented place to control the
+        sequence) and defines just one of the optional per-kind handlers."""
+
+        def __init__(self):
+            super().__init__()
+            self.received = []
+            self.processed = []
+
+        def write(self, log):
+            self.received.append(log)
+            taps.emit("log_write", log=log, via="write")
+            super().write(log)
+
+        def bulk_write(self, logs):
+            for log in logs:
+                self.received.append(log)
+                taps.emit("log_write", log=log, via="bulk_write")
+            super().bulk_write(logs)
+
+        def write_and_direct_process(self, log):
+            self.received.append(log)
+            taps.emit("log_write", log=log, via="direct")
+            super().write_and_direct_process(log)
+            taps.emit("log_direct_done", log=log)
+
+        def bulk_write_and_direct_process(self, logs):
+            for log in logs:
+                self.received.append(log)
+                taps.emit("log_write", log=log, via="bulk_direct")
+            super().bulk_write_and_direct_process(logs)
+
+        def process(self, logs):
+            for log in logs:
+                self.processed.append(log)
+                taps.emit("log_process", log=log, kind="batch")
+            super().process(logs)
+
+        def process_market_step_end_log(self, log):
+            self.n_step_ends = getattr(self, "n_step_ends", 0) + 1
+
     class FalsyRecordingLogger(RecordingLogger):
         """a logger that is 'falsy' while it has processed nothing (e.g. a saver exposing its number of rows)."""
 
@@ -483,6 +524,7 @@ def classes():
         "ScriptHFTAgent": ScriptHFTAgent,
         "RecordingLogger": RecordingLogger,
         "FalsyRecordingLogger": FalsyRecordingLogger,
+        "BatchRecordingLogger": BatchRecordingLogger,
         "DepthMarket": DepthMarket,
         "FalsyScriptAgent": FalsyScriptAgent,
         "ProbeEvent": ProbeEvent,
@@ -579,8 +621,8 @@ def run_runner_case(case, sinks=(), with_logger=True, extra_classes=(), settings
         taps.add_sink(s)
     try:
         settings = settings_obj if settings_obj is not None else copy.deepcopy(case["config"])
-        out.logger = (cls["FalsyRecordingLogger" if case.get("logger_kind") == "falsy" else "RecordingLogger"]()
-                      if with_logger else None)
+        out.logger = (cls[{"falsy": "FalsyRecordingLogger", "batch": "BatchRecordingLogger"}.get(
+            case.get("logger_kind"), "RecordingLogger")]() if with_logger else None)
         try:
             runner = SequentialRunner(settings=settings, prng=random.Random(case["seed"]), logger=out.logger)
             out.runner = runner
@@ -895,6 +937,8 @@ def gen_accounting_case(rng, tier, hostile=None, hft=None, hostile_hft=False, pe
         case["permute_agent_ids"] = True
     if rng.random() < 0.15:
         case["logger_kind"] = "falsy"
+    elif rng.random() < 0.15:
+        case["logger_kind"] = "batch"
     if hostile:
         # one agent group carries the hostile action; it fires rarely so that the run first builds state
         cand = [n for n in cfg["simulation"]["agents"] if "program" in cfg[n]]
